@@ -45,10 +45,19 @@ def main(run):
         if t % 3 == 2:
             theta_max = rng.choice([0.05, 0.01])        # an acceptance well below 1 1/A
         zacc = 2 * math.pi / lam * math.sin(theta_max)
-        tr = SesansTransform(xi, xi, np.full(len(xi), lam), zacc, 1e7)
+        # the grid ratio is a (rarely passed) keyword: the weights are the steps of whatever grid was built
+        spacing = rng.choice([1.001, 1.0001, 1.002]) if t % 4 == 1 else None
+        if spacing is None:
+            tr = SesansTransform(xi, xi, np.full(len(xi), lam), zacc, 1e7)
+        else:
+            tr = SesansTransform(xi, xi, np.full(len(xi), lam), zacc, 1e7, log_spacing=spacing)
+            stats["other_log_spacing"] = stats.get("other_log_spacing", 0) + 1
         q = np.asarray(tr.q_calc)
         evals += 1; stats["transforms"] += 1; stats["grid_sizes"].append(len(q))
-        desc = dict(n_xi=int(n), xi_range=[float(xi[0]), float(xi[-1])], wavelength=lam, theta_max=theta_max, zaccept=zacc, n_q=len(q))
+        desc = dict(n_xi=int(n), xi_range=[float(xi[0]), float(xi[-1])], wavelength=lam, theta_max=theta_max, zaccept=zacc, n_q=len(q), log_spacing=spacing)
+        if spacing is not None and len(q) > 2 and not np.allclose(q[1:] / q[:-1], spacing, rtol=1e-9):
+            run.add(Finding("C19:grid", "log_spacing=%r: successive q_calc values have ratio %r" % (spacing, float(q[1] / q[0])), desc))
+            continue
         # q_calc positive and increasing
         if not (np.all(q > 0) and np.all(np.diff(q) > 0)):
             run.add(Finding("C19:qcalc", "q_calc is not positive and increasing for %s" % desc, desc))
@@ -148,7 +157,8 @@ def main(run):
     # ---- Gaussian Hankel pairs: I = exp(-q^2 s^2/2)  ->  (exp(-xi^2/2s^2) - 1)/(2 pi s^2)
     for t in range(4 if not thorough else 20):
         xi = np.logspace(2, 4, 40) if t % 2 else np.linspace(100, 5000, 50)
-        tr = SesansTransform(xi, xi, np.full(len(xi), 5.0), 2 * math.pi / 5.0, 1e7)
+        tr = SesansTransform(xi, xi, np.full(len(xi), 5.0), 2 * math.pi / 5.0, 1e7) if t % 4 != 3 else \
+            SesansTransform(xi, xi, np.full(len(xi), 5.0), 2 * math.pi / 5.0, 1e7, log_spacing=1.001)
         q = tr.q_calc
         lo_s, hi_s = 30.0 / q[-1], 0.03 / q[0]      # 1/s well inside the calculated range
         s = math.exp(rng.uniform(math.log(lo_s), math.log(hi_s)))
